@@ -138,7 +138,7 @@ func runC10(c *Ctx) {
 		}
 		r.Check((w1 != nil || pe != nil) && strings.Contains(fmtS, "%w"), "C10.exits.error-wrap", c.ipos(e.Instr), "error wraps (%%w) ErrInvalidPathFormat or the numeric parse error: format %q", fmtS)
 	}
-	r.Floor("C10.floor.exits", nEmpty+nLoopRet+nErr, 4, "returns of ParsePath")
+	r.Floor("C10.floor.exits", nEmpty+nLoopRet+nErr, 2, "returns of ParsePath")
 	// closed list of reject reasons: an error return is reachable only through one of these edges
 	rejectEdges := plainEdges(edgesMatching(b,
 		"bin<<>(len("+matches+"), 2)", "bin<<=>(len("+matches+"), 1)",
@@ -273,7 +273,7 @@ func runC10(c *Ctx) {
 			}
 		}
 	}
-	r.Floor("C10.floor.index-sites", nIdx, 3, "constant index sites on the sub-match slice")
+	r.Floor("C10.floor.index-sites", nIdx, 1, "constant index sites on the sub-match slice")
 	if pattern != "" {
 		r.OK("C10.no-panic.mustcompile", "", "MustCompile argument %q compiled by the checker without error", pattern)
 	}
